@@ -163,6 +163,8 @@ type Unit struct {
 	groundHints []string
 	epochHeaps  map[string]Term
 	lastSpecErr string
+	vacuityPos  int
+	indexTerms  []string
 	quants      []*quantAssumption
 	boundNow   map[string]bool
 	retReach []Term
@@ -227,6 +229,7 @@ func sanitizeSym(s string) string {
 
 func (u *Unit) assume(guard, f Term) {
 	u.recordQuant(guard, f)
+	f = u.expandExists(f)
 	f = implies(guard, f)
 	if f.S == "true" {
 		return
@@ -245,6 +248,7 @@ func (u *Unit) oblige(kind string, guard, f Term, kindName, detail, src string) 
 		u.assume(guard, f)
 		return &Obligation{}
 	}
+	f = u.expandExists(f)
 	var name string
 	if detail != "" {
 		key := kindName + "[" + detail + "]"
